@@ -23,12 +23,15 @@ BlobIds == {"C1", "L2", "ZZ"}
 Files == {"good", "missing", "bad"}
 
 (* --------------------------- statement alphabet ------------------------- *)
-ListStmts == {S("repo.ls", r, "", "", "") : r \in Regs} \cup {S("tag.ls", l, "", "", "") : l \in Locs \cup {"bad"}}
+ListStmts == {S(op, r, "", "", "") : op \in {"repo.ls", "repo.ls+limit"}, r \in Regs} \cup {S("tag.ls", l, "", "", "") : l \in Locs \cup {"bad"}}
 ManifestStmts ==
   {S(op, r[1], r[2], "", "") : op \in {"manifest.get", "manifest.getList", "manifest.head"}, r \in ReadRefs \cup DigestRefs}
   \cup {S("manifest.get", l, "ix", "linux/arm64", "") : l \in {"a1", "lay"}}
   \cup {S(op, r[1], r[2], "", "") : op \in {"image.manifest", "image.manifestHead", "image.manifestList"}, r \in {<<"a1", "v1">>, <<"lay", "ix">>}}
-VarReadStmts == {S(op, "", "", "", "") : op \in {"m:get", "m:export", "m:config", "c:export", "m:ratelimit", "r:digest"}}
+VarReadStmts == {S(op, "", "", "", "") : op \in {"m:get", "m:head", "m:export", "m:config", "c:export", "m:ratelimit", "m:ratelimitWait",
+                                                "r:digest", "r:close"}}
+                \cup {S(op, "", "", b, "") : op \in {"b:get", "b:head"}, b \in {"C1"}}
+                \cup {S("tag.ls", "$c", "", "", ""), S("reference.new", "$c", "", "", ""), S("image.exportTar", "$r", "", "out", "")}
                 \cup {S("r:tag", "", "", t, "") : t \in {"", "v1", "new", "none"}}
                 \cup {S("image.config", "$m", "", "", ""), S("reference.new", "$m", "", "", ""), S("manifest.head", "$r", "", "", "")}
 ConfigStmts == {S("image.config", r[1], r[2], "", "") : r \in ReadRefs}
@@ -38,14 +41,20 @@ MiscReadStmts == {S("image.ratelimitWait", r[1], r[2], "", "") : r \in {<<"a1", 
                  \cup {S("reference.close", r[1], r[2], "", "") : r \in {<<"a1", "v1">>, <<"lay", "v1">>, <<"bad", "">>}}
 ReadStmts == ListStmts \cup ManifestStmts \cup VarReadStmts \cup ConfigStmts \cup MiscReadStmts
 
-DeleteStmts == {S("tag.delete", r[1], r[2], "", "") : r \in ReadRefs \cup {<<"$r", "">>}} \cup {S("m:delete", "", "", "", "")}
+DeleteStmts == {S("tag.delete", r[1], r[2], "", "") : r \in ReadRefs \cup DigestRefs \cup {<<"$r", "">>}} \cup {S("m:delete", "", "", "", "")}
 PutStmts == {S(op, r[1], r[2], "", "") : op \in {"manifest.put", "m:put"}, r \in WriteTgts \cup {<<"bad", "">>}}
             \cup {S("blob.put", l, "", c, "") : l \in Locs \cup {"bad"}, c \in {"str", "$b", "$c"}}
-            \cup {S("b:put", "", "", "str", "")}
+            \cup {S("b:put", "", "", c, "") : c \in {"str", "$b", "$c"}}
+            \cup {S(op, "$r", "", "", "") : op \in {"manifest.put", "m:put"}}
+            \cup {S("blob.put", "$r", "", c, "") : c \in {"str", "$b", "$c"}}
+            \cup {S("manifest.put", l, "M1", "", "") : l \in {"b1", "lay"}}
 CopyStmts == {S("image.copy", s[1], s[2], t[1], t[2]) : s \in ReadRefs, t \in WriteTgts \cup {<<"bad", "">>}}
              \cup {S(op, "a1", "ix", t[1], t[2]) : op \in {"image.copy+dt", "image.copy+fr"}, t \in {<<"b1", "new">>, <<"lay", "new">>}}
+             \cup {S(op, s[1], s[2], t[1], t[2]) : op \in {"image.copy+pf", "image.copy+ie"},
+                      s \in {<<"a1", "ix">>, <<"lay", "ix">>, <<"a1", "v1">>}, t \in {<<"b1", "new">>, <<"lay", "new">>, <<"a1", "new">>}}
+             \cup {S("image.copy", l, "M1", t[1], t[2]) : l \in {"a1", "lay"}, t \in {<<"b1", "new">>, <<"lay", "new">>}}
              \cup {S("image.copy", "a1", "v1", "$r", "")}
-TarStmts == {S("image.importTar", t[1], t[2], f, "") : t \in WriteTgts \cup {<<"bad", "">>}, f \in Files}
+TarStmts == {S("image.importTar", t[1], t[2], f, "") : t \in WriteTgts \cup {<<"bad", "">>, <<"$r", "">>}, f \in Files}
             \cup {S("image.exportTar", r[1], r[2], f, "") : r \in ReadRefs, f \in {"out", "baddir"}}
 WriteStmts == DeleteStmts \cup PutStmts \cup CopyStmts \cup TarStmts
 GuardStmts == {S(op, r[1], r[2], "", "") : op \in GuardOps, r \in ReadRefs \cup WriteTgts}
@@ -62,7 +71,7 @@ Simple == ReadStmts \cup WriteStmts
 Full == Simple \cup {P(st) : st \in Simple} \cup GuardStmts \cup {ErrorStmt}
 \* reduced alphabets for the larger configurations
 Core == {st \in Simple : st.l1 \in {"a1", "lay", "$m", "$r", "bad", ""} /\ st.l2 \in {"", "b1", "lay", "good", "missing", "out", "str", "$b", "$c", "C1"}
-                         /\ st.t1 # "ix" /\ st.op \notin {"image.manifest", "image.manifestHead", "image.manifestList", "image.copy+dt", "image.copy+fr"}}
+                         /\ st.t1 # "ix" /\ st.op \notin {"image.manifest", "image.manifestHead", "image.manifestList", "image.copy+dt", "image.copy+fr", "image.copy+pf", "image.copy+ie"}}
         \cup {ErrorStmt}
 \* the throttled bindings with their failure paths (before and while holding the slot) and what feeds them
 Throttle == {S("image.config", "a1", "v1", "", ""), S("image.config", "a1", "none", "", ""), S("image.config", "$m", "", "", ""),
@@ -72,7 +81,7 @@ Throttle == {S("image.config", "a1", "v1", "", ""), S("image.config", "a1", "non
              S("image.exportTar", "a1", "v1", "out", ""), S("image.exportTar", "a1", "none", "baddir", ""), ErrorStmt}
 Alpha == CASE Alphabet = "full" -> Full [] Alphabet = "core" -> Core [] Alphabet = "throttle" -> Throttle
 
-MCInit == \E w \in {WorldA, WorldB}, m \in {"dry", "nor"}, p \in Pars : InitWith(w, m, p)
+MCInit == \E w \in {WorldA, WorldB, WorldN}, m \in {"dry", "nor"}, p \in Pars : InitWith(w, m, p)
 
 MCNext ==
   \/ \E s \in Scripts :
